@@ -456,6 +456,7 @@ func (c *Collection) Update(key string, exp Exp, callback sgbucket.UpdateFunc) (
 	defer func() { traceExit("Update", err, "0x%x", casOut) }()
 	for {
 		raw, cas, _, err := c.getRaw(c.db(), key)
+		verifPoint("update.afterread", key, cas)
 		var missingError sgbucket.MissingError
 		if err != nil && !errors.As(err, &missingError) {
 			return 0, err
@@ -614,9 +615,11 @@ func (c *Collection) withNewCas(fn func(txn *sql.Tx, newCas CAS) (*event, error)
 		if err != nil {
 			return err
 		}
+		verifPoint("cas.afterwrite", newCas)
 		return c.setLastCas(txn, newCas)
 	})
 	if err == nil && e != nil {
+		verifPoint("post.before", e.key, e.cas)
 		c.postNewEvent(e)
 	}
 	return err
